@@ -169,7 +169,12 @@ theorem firstFree_slot_empty (l : List (Option Conn)) (n : Nat) (hn : 2 ≤ n) :
 def quiet : Ev → Bool
   | .crash _ => false
   | .xErr _ => false
+  | .cycle _ => false
   | _ => true
+
+def isCycleEv : Ev → Bool
+  | .cycle _ => true
+  | _ => false
 
 /-- a block of events (newest first) appended by a step: no crash event; chronologically every `x err who` is
     directly followed by its report `meh 0 boom who` (the judge's `reportOk`), in particular none is left dangling -/
@@ -177,6 +182,7 @@ structure BlockOK (es : List Ev) : Prop where
   noCrash : ∀ e ∈ es, isCrash e = false
   report : reportOk es.reverse = true
   closed : ∀ who, es.head? ≠ some (.xErr who)
+  noCycle : ∀ e ∈ es, isCycleEv e = false
 
 theorem reportOk_append : ∀ (a b : List Ev), reportOk a = true → (∀ who, a.getLast? ≠ some (.xErr who)) →
     reportOk b = true → reportOk (a ++ b) = true := by
@@ -209,16 +215,21 @@ theorem reportOk_append : ∀ (a b : List Ev), reportOk a = true → (∀ who, a
         | nil => exact hb
         | cons m r => exact ih b ha (hl' (by simp)) hb
 
-theorem BlockOK.nil : BlockOK [] := ⟨by simp, rfl, by simp⟩
+theorem BlockOK.nil : BlockOK [] := ⟨by simp, rfl, by simp, by simp⟩
 
 theorem BlockOK.single (e : Ev) (q : quiet e = true) : BlockOK [e] := by
   cases e <;> first
     | (simp [quiet] at q; done)
-    | exact ⟨by simp [isCrash], rfl, by simp⟩
+    | exact ⟨by simp [isCrash], rfl, by simp, by simp [isCycleEv]⟩
 
 /-- block `b` appended after block `a` (newest first: `b ++ a`) -/
 theorem BlockOK.append {a b : List Ev} (ha : BlockOK a) (hb : BlockOK b) : BlockOK (b ++ a) := by
-  refine ⟨?_, ?_, ?_⟩
+  refine ⟨?_, ?_, ?_, ?_⟩
+  rotate_left 3
+  · intro e he
+    rcases List.mem_append.mp he with h | h
+    · exact hb.noCycle e h
+    · exact ha.noCycle e h
   · intro e he
     rcases List.mem_append.mp he with h | h
     · exact hb.noCrash e h
